@@ -1,2 +1,2 @@
 #include "scen/c14_server.inc"
-REGISTER_SCENARIO(c14_server_a, "C14", "server_io", genServer, runServer, 15000, 1000000, {1, 2, 4}, 30, 3000000, 300.0, RULE14, REAL14, STUB14, false);
+REGISTER_SCENARIO(c14_server_a, "C14", "server_io", genServer, runServer, 30000, 1500000, {1, 2, 4}, 30, 3000000, 300.0, RULE14, REAL14, STUB14, false);
